@@ -21,6 +21,8 @@ pub enum Family {
     Flood,
     /// asks (and tells) given up by their callers while still queued, then an idle actor is stopped, killed or left alone
     Abandon,
+    /// a long streak of handlers that finish at once (a permit is waiting at their gate), then one that is held for milliseconds
+    Streak,
     /// the shutdown window: a backlog, then stop() (also on a full mailbox), then traffic, kill, drops
     /// and ticks while the marker travels and while on_stop is suspended
     Shutdown,
@@ -37,6 +39,7 @@ pub fn family_of(name: &str) -> Option<Family> {
         "eager" => Family::Eager,
         "flood" => Family::Flood,
         "abandon" => Family::Abandon,
+        "streak" => Family::Streak,
         _ => return None,
     })
 }
@@ -59,16 +62,21 @@ impl Gen {
         let len = match family {
             Family::Flood => 50 + rng.below(30) as usize,
             Family::Abandon => 14 + rng.below(6) as usize,
+            Family::Streak => 2 + 2 * (129 + rng.below(60) as usize) + 8,
             _ => 20 + rng.below(70) as usize,
         };
         Gen { rng, family, len, emitted: 0, phase: 0, closing_gates: 0, closing_ticks: 0 }
     }
 
     fn spawn_line(&mut self) -> String {
+        if self.family == Family::Streak {
+            return "spawn cap=32 start=ok stop=ok run=d".to_string();
+        }
         let r = &mut self.rng;
         let cap = match self.family {
             Family::Burst | Family::Timeouts | Family::Shutdown | Family::Eager => *r.pick(&[1usize, 1, 2, 2, 3]),
             Family::Abandon => *r.pick(&[4usize, 8, 32]),
+            Family::Streak => 32,
             _ => *r.pick(CAPS),
         };
         let so = |r: &mut Rng, okw: u64| match r.weighted(&[okw, 1, 1]) {
@@ -254,6 +262,25 @@ impl Gen {
                 3 => format!("stop {}", self.pick_handle(w, true)),
                 _ => format!("kill {}", self.pick_handle(w, true)),
             },
+            Family::Streak => {
+                let e = self.emitted;
+                let body_end = self.len - 8;
+                if e <= 2 {
+                    "gate".to_string()
+                } else if e <= body_end {
+                    // permit first, then the message: its handler does not suspend
+                    if (e - 3) % 2 == 0 { "pregate".to_string() } else { "tell 0 ok".to_string() }
+                } else {
+                    match e - body_end {
+                        1 => if self.rng.chance(1, 2) { "tell 0 ok".to_string() } else { "ask 0 ok".to_string() },
+                        2 | 3 => "stall".to_string(),
+                        4 => "gate".to_string(),
+                        5 => "tell 0 ok".to_string(),
+                        6 => "stall".to_string(),
+                        _ => "gate".to_string(),
+                    }
+                }
+            }
             Family::Abandon => {
                 // start-up; one gated handler; sends with short deadlines queue behind it and expire there;
                 // the handler is released; then the (idle) actor is killed, stopped, sent one more message or left alone
